@@ -220,5 +220,7 @@ LEVEL_TEXT = ("The sort as coded is proved correct for ALL inputs: on acyclic (r
               "dependency-respecting orders of the same lines give the same state and count when independent messages commute "
               "(C13_linear_extensions_agree); for C12's abstract application the commutation is proved, so permuting the lines of a file "
               "changes neither the state nor the count (C13_perm_invariant: wf_app, metadata declares the dependencies - decidable, "
-              "C13_declared_computed, evaluated in the tie -, acyclic edges); C13_edges_complete, C13_same_edges full at model level.")
+              "C13_declared_computed, evaluated in the tie -, acyclic edges); C13_edges_complete, C13_edges_complete_self (the self: port of every "
+              "directory above a line: rSelf(.., rEnabledBy(x))), C13_same_edges full at model level; an entry naming a port inside an enumerated "
+              "sub-tree resolves below the line's own expanded address (resolve_entry).")
 LEVEL_NOTE = "apropos (C18) and the metadata lookup (C17) enter the model as a function argument; the application semantics are C12's abstract application"
